@@ -192,3 +192,9 @@ Proof.
   apply existsb_exists in E. destruct E as (x & Hin & Hx). assert (x = c) by lia. subst x.
   rewrite forallb_forall in H. rewrite (H c Hin) in Hc. discriminate.
 Qed.
+
+Lemma strip_prefix_app_gen p x : strip_prefix p (p ++ x) = Some x.
+Proof. induction p as [|c p IH]; [reflexivity|]. cbn [app strip_prefix]. rewrite Z.eqb_refl. exact IH. Qed.
+
+Lemma andb_prop_l a b : a && b = true -> a = true. Proof. intros H. apply andb_true_iff in H. tauto. Qed.
+Lemma andb_prop_r a b : a && b = true -> b = true. Proof. intros H. apply andb_true_iff in H. tauto. Qed.
